@@ -15,6 +15,13 @@ import pandas as pd
 DEFAULT_SEED = 20261004
 
 
+class CpuBudgetExceeded(BaseException):
+    """Raised (from a SIGVTALRM handler) inside a run that has used up its CPU budget: a call
+    into the library that does not return is an outcome the oracles can judge, not a reason
+    to kill the worker.  BaseException, so that ``except Exception`` in the library cannot
+    swallow it."""
+
+
 def derive_seed(*parts):
     """Stable 63-bit integer from the given parts (no hash(), no numpy)."""
     text = '/'.join(str(p) for p in parts)
